@@ -12,6 +12,7 @@ Ops (one output line each):
 * `recv <conn>`           `push_rx.try_recv()` → `-` | `gone` | `method=<m> sid=sub-<k> data=<n>`
 * `close <conn>`          drop `push_rx`                                                       → `ok` | `gone`
 * `racepub <topic> <n> <k>` publish and `unsubscribe("sub-<k>")` as two concurrent tasks     → `ok removed=<0|1>`
+* `racepub <topic> <n> <k> <burn>` the same with a task switch forced inside `publish` (closed victim) → `ok`
 * `subn <conn> <topic> <c>` `c` subscribes in a row                                           → `first:id=.. last:id=..`
 * `par <nsubs> <rounds>`  publisher thread vs. unsubscribing thread on a private hub (monitor) → `ok`
 * `len`                   `hub.len()`                                                          → `len=<n>`
@@ -78,6 +79,18 @@ def step (s : St) (toks : List String) : St × String :=
         (r2.1, r1.2 ++ " " ++ r2.2)
       else (s, "bad-op")
     | _, _ => (s, "bad-op")
+  | ["racepub", topic, n, k, burn] =>
+    -- the same two tasks with a task switch forced inside the real `publish` (the harness does this only for
+    -- a victim whose receiver is gone: then every interleaving ends in the state of `pub` then `unsub`);
+    -- constant reply, which of the two removed the entry is not reported
+    match n.toNat?, k.toNat?, burn.toNat? with
+    | some n, some k, some b =>
+      if validTopic topic && b ≤ 1000 then
+        let r1 := run s (.pub topic n)
+        let r2 := run r1.1 (.unsub k)
+        (r2.1, "ok")
+      else (s, "bad-op")
+    | _, _, _ => (s, "bad-op")
   | ["subn", c, topic, count] =>
     match c.toNat?, count.toNat? with
     | some c, some count =>
